@@ -22,13 +22,13 @@ TOKEN_RND = T([dict(n=10, len=30, procs=8)], [dict(n=60, len=40, procs=12)])
 
 C09_MC = T([dict(cfg="MC_Token.cfg", timeout=900), dict(cfg="MC_TokenId.cfg", timeout=900)],
            [dict(cfg="MC_Token_big.cfg", timeout=3000), dict(cfg="MC_TokenId.cfg", timeout=900)])
-C09_GEN = T([dict(cfg="GEN_Token.cfg", num=20, depth=16, seeds=8, driver_cfg=C09_GEN_CFG)],
+C09_GEN = T([dict(cfg="GEN_Token.cfg", num=20, depth=16, seeds=6, driver_cfg=C09_GEN_CFG)],
             [dict(cfg="GEN_Token.cfg", num=60, depth=20, seeds=14, driver_cfg=C09_GEN_CFG)])
 C09_SCN = [dict(file="scenarios/token_F5.ndjson", cfg=C09_GEN_CFG)]
 
 C10_MC = T([dict(cfg="MC_TokenMath.cfg", timeout=900, workers=4), dict(cfg="MC_TokenErc.cfg", timeout=900)],
            [dict(cfg="MC_TokenMath.cfg", timeout=900, workers=4), dict(cfg="MC_TokenErc_big.cfg", timeout=3000)])
-C10_GEN = T([dict(cfg="GEN_TokenErc.cfg", num=20, depth=16, seeds=8, driver_cfg=C10_GEN_CFG),
+C10_GEN = T([dict(cfg="GEN_TokenErc.cfg", num=20, depth=16, seeds=6, driver_cfg=C10_GEN_CFG),
              dict(cfg="GEN_TokenMath.cfg", mode="bfs", depth=401, seeds=1, driver_cfg="")],
             [dict(cfg="GEN_TokenErc.cfg", num=60, depth=20, seeds=14, driver_cfg=C10_GEN_CFG),
              dict(cfg="GEN_TokenMath_big.cfg", mode="bfs", depth=401, seeds=1, driver_cfg="")])
